@@ -59,6 +59,9 @@ func (fv *FuncVC) reset() {
 	fv.allocBoundTerm = ""
 	fv.lockIDs = nil
 	fv.guardN = nil
+	fv.lockClass = nil
+	fv.relockN = 0
+	fv.caHits = nil
 	fv.pc = "true"
 	fv.cur = &State{cells: map[*ssa.Alloc]string{}, heaps: map[string]string{}}
 }
@@ -146,7 +149,22 @@ func (fv *FuncVC) runOnce() {
 			ast.Inspect(r.Expr, func(nd ast.Node) bool {
 				if ce, ok := nd.(*ast.CallExpr); ok {
 					if id, ok := ce.Fun.(*ast.Ident); ok && id.Name == "held" && len(ce.Args) == 1 {
-						cur = "(store " + cur + " " + entryEnv.addrOf(ce.Args[0]) + " " + fv.fresh("held0", "Int") + ")"
+						lid := entryEnv.addrOf(ce.Args[0])
+						cur = "(store " + cur + " " + lid + " " + fv.fresh("held0", "Int") + ")"
+						// a mutex held by precondition is one of the caller's locks for the no-relock obligations
+						if sel, ok := ce.Args[0].(*ast.SelectorExpr); ok {
+							if bv := entryEnv.tr(sel.X); bv != nil && bv.Typ != nil {
+								if pt, ok := bv.Typ.Underlying().(*types.Pointer); ok {
+									if named, ok := types.Unalias(pt.Elem()).(*types.Named); ok {
+										fv.noteLockID(lid)
+										if fv.lockClass == nil {
+											fv.lockClass = map[string]string{}
+										}
+										fv.lockClass[lid] = named.Obj().Name() + "." + sel.Sel.Name
+									}
+								}
+							}
+						}
 					}
 				}
 				return true
